@@ -10,6 +10,8 @@ Record obs := {
   o_create : ares;          (* clusters.CreateClusterInfo *)
   o_ctrl : ares;            (* UpstreamClusterController.syncUpstreamCluster on a fresh controller *)
   o_lim : ares;             (* rateLimiter.UpstreamConditionHandler *)
+  o_pols : option (list (bool * Z * bool));   (* on the created ClusterInfo, per dispatch policy: a request for it finds it,
+                                                 number of its upstreams that are known endpoints, flow control is the default *)
 }.
 
 Definition ares_eqb (a b : ares) : bool :=
@@ -19,10 +21,16 @@ Definition ares_eqb (a b : ares) : bool :=
 Definition total_ok (o : obs) : bool :=
   match o_validate o with VPanic => false | VErrs _ => negb (ares_eqb (o_admit o) Panic) end.
 
-(* (2) every admitted object is applied by the gateway and by the limiter without error or panic *)
-Definition sound_ok (o : obs) : bool :=
+(* (2) every admitted object is applied by the gateway and by the limiter without error or panic, and what was
+   applied is usable: every dispatch policy can be reached, its upstream subset resolves to at least one endpoint the
+   ClusterInfo knows, and a flow-control schema it names is in force (not the system default) *)
+Definition policy_usable (p : policy) (v : bool * Z * bool) : bool :=
+  let '(matched, known, fc_default) := v in
+  (matched && (1 <=? known) && ((p_schema p =? 0) || negb fc_default))%bool.
+Definition sound_ok (f : facts) (o : obs) : bool :=
   if ares_eqb (o_admit o) Ok
-  then (ares_eqb (o_create o) Ok && ares_eqb (o_ctrl o) Ok && ares_eqb (o_lim o) Ok)%bool
+  then (ares_eqb (o_create o) Ok && ares_eqb (o_ctrl o) Ok && ares_eqb (o_lim o) Ok
+        && match o_pols o with Some l => forall2b policy_usable (f_policies f) l | None => false end)%bool
   else true.
 
 (* (3) objects that would break the data plane are rejected.  The classes named by the property: *)
@@ -60,7 +68,7 @@ Definition rejects_ok (f : facts) (o : obs) : bool :=
   then (negb (ares_eqb (o_admit o) Ok) && match o_validate o with VErrs [] => false | _ => true end)%bool
   else true.
 
-Definition clauses (f : facts) (o : obs) : list bool := [total_ok o; sound_ok o; rejects_ok f o].
+Definition clauses (f : facts) (o : obs) : list bool := [total_ok o; sound_ok f o; rejects_ok f o].
 
 (* ---------- extension: updates and the remote rate limiter ---------- *)
 Record upd_obs := {
